@@ -11,7 +11,7 @@ CLAIMED = {
          'contract-based deductive verification (Verus): safety preconditions of all unsafe calls under the representation invariant', '7 C03'),
  'C04': ('proof', 'Linear ownership view cells(): Seq<Option<T>> of every column: write requires None, swap_remove/slice require Some, drop_to(len) requires all Some below len, drop_body frees every array, failed push_within_capacity returns its argument with *self unchanged, clone makes exactly one clone per live cell.',
          'contract-based deductive verification (Verus) over a linear ghost ownership view of the columns', '7 C04'),
- 'C05': ('proof', 'The binding logic of all five query macros (macros/src/generate/query.rs: bind_query_params, bind_one_of; data.rs: contains_component; real bodies, syn types stubbed) is verified against the property statement: an archetype gets an entry iff EVERY parameter binds in it (component present / archetype name equal / wildcard and dynamic entity parameters always / cfg-disabled parameters always / OneOf: exactly one argument present), the entry is the parameter list with each OneOf replaced by the one present component, and an error is returned iff some OneOf is ambiguous for some archetype (or carries cfg attributes). Partial claim: that the emitted token stream dispatches as bound, "query matched no archetypes" and the compile-time rejection reaching the user are outside (rustc/syn).',
+ 'C05': ('proof', 'The binding logic of all five query macros (macros/src/generate/query.rs: bind_query_params, bind_one_of; data.rs: contains_component; real bodies, syn types stubbed) is verified against the property statement: an archetype gets an entry iff EVERY parameter binds in it (component present / archetype name equal / wildcard and dynamic entity parameters always / cfg-disabled parameters always / OneOf: exactly one argument present), the entry is the parameter list with each OneOf replaced by the one present component, and an error is returned iff some OneOf is ambiguous for some archetype (or carries cfg attributes). Partial claim: that the emitted token stream dispatches as bound, "query matched no archetypes" and the compile-time rejection reaching the user are outside (rustc/syn). The emission skeletons of generate_query_find / generate_query_iter / generate_query_iter_destroy (mechanical slices of the real functions: binding call, archetype loop, table lookup, push, final if/else; pure token-building lets dropped after a syntactic purity check) are verified too: Ok implies a block is emitted for exactly the archetypes in which every parameter binds (each once, in world order) and at least one; Err implies an ambiguous or cfg-decorated OneOf, or that no archetype binds.',
          'contract-based deductive verification (Verus) of the query-parameter binding functions', '7 C05'),
  'C06': ('proof', 'Slice accessors have length len() and content rows 0..len of the right column with the matching handle (Verus, all N columns).',
          'contract-based deductive verification (Verus) of slice accessors', '7 C06'),
